@@ -104,7 +104,10 @@ CPPManifest(const CPPPreprocessor &parser, const string &args, const cppyyltype 
     parse_parameters(args, p, parameter_names);
     _num_parameters = parameter_names.size();
 
-    p++;
+    // Skip the closing parenthesis, if the parameter list has one.
+    if (p < args.size()) {
+      p++;
+    }
   } else {
     _has_parameters = false;
     _num_parameters = 0;
